@@ -137,6 +137,17 @@ func (rn *runner) runWriter(e *RealEnd, tc *TaskCfg, t *Task) {
 			failed := false
 			for _, ch := range op.Chunks {
 				t.Yield()
+				if ch.How == "e+" || ch.How == "e-" {
+					// a setting changed while a message is open applies to subsequent messages only
+					ewc = ch.How == "e+"
+					c.EnableWriteCompression(ewc)
+					continue
+				}
+				if ch.How == "l" {
+					lr := t.Begin("SetCompressionLevel", i)
+					t.End(lr, c.SetCompressionLevel(ch.N))
+					continue
+				}
 				n := ch.N
 				if n > len(data)-written {
 					n = len(data) - written
